@@ -2,6 +2,7 @@ import PugModel.Tpl.Exec
 import PugProofs.C02.IfDoc
 import PugProofs.C02.EachDoc
 import PugModel.Gen.Tables
+import PugProofs.C03.Frame
 /-!
 # C02 — conditionals, case, each and while select and repeat exactly as pug prescribes
 
@@ -205,6 +206,50 @@ theorem C02_each_object_null_member_visited (a : Nat) (st : St) (ho : (st.heap.g
   subst h2
   simp only [List.mem_map, List.mem_filter]
   exact ⟨k, ⟨hk, by simp [hp]⟩, rfl⟩
+
+theorem opMapPairs_length (h : Heap) : ∀ (kvs : List Val) (ps : List (String × Val)), opMapPairs h kvs = .ok ps → 2 * ps.length = kvs.length
+  | k :: v :: rest, ps, hp => by
+    unfold opMapPairs at hp
+    cases hk : objStr h (strFuel h) k with
+    | none => simp [hk] at hp
+    | some ks =>
+      simp only [hk] at hp
+      cases hr : opMapPairs h rest with
+      | error e => simp [hr, Except.map] at hp
+      | ok qs =>
+        simp [hr, Except.map] at hp
+        subst hp
+        have := opMapPairs_length h rest qs hr
+        simp; omega
+  | [], ps, hp => by simp [opMapPairs] at hp; subst hp; rfl
+  | [_], ps, hp => by simp [opMapPairs] at hp
+
+/-- **C02 (an object literal keeps the order its keys were written in).** For EVERY operand list of the object-literal helper
+`__op__map` and every state: if the helper returns, the result is ONE new map whose insertion order is exactly the key texts in the
+order they were written - one per key / value pair - and every other array, map and the rest of the state is untouched. Together with
+`C02_each_object_items` this is "each walks an object literal in the order it was written". -/
+theorem C02_object_literal_order (kvs : List Val) (st st' : St) (v : Val) (h : callBuiltin "__op__map" kvs st = .ok (v, st')) :
+    ∃ ps, opMapPairs st.heap kvs = .ok ps ∧ 2 * ps.length = kvs.length ∧ v = .map st.heap.maps.length ∧
+      (st'.heap.getMap st.heap.maps.length).order = ps.map (·.1) ∧
+      (∀ a, a < st.heap.arrs.length → st'.heap.getArr a = st.heap.getArr a) ∧
+      (∀ a, a < st.heap.maps.length → st'.heap.getMap a = st.heap.getMap a) ∧ st'.vars = st.vars ∧ st'.out = st.out := by
+  have hc : callBuiltin "__op__map" kvs st = opMap st.heap kvs st := by
+    unfold callBuiltin
+    rfl
+  rw [hc] at h
+  unfold opMap at h
+  cases hp : opMapPairs st.heap kvs with
+  | error e => simp [hp, throwE] at h
+  | ok ps =>
+    simp only [hp] at h
+    obtain ⟨g, hv⟩ := C03F.allocMap_grows _ _ _ _ h
+    have hnew : (st'.heap.getMap st.heap.maps.length).order = ps.map (·.1) := by
+      simp [allocMap, Heap.allocMap, getHeap, setHeap, bind, StateT.bind, Except.bind, get, getThe, MonadStateOf.get, StateT.get, pure,
+        Except.pure, StateT.pure, modify, modifyGet, MonadStateOf.modifyGet, StateT.modifyGet] at h
+      obtain ⟨_, rfl⟩ := h
+      simp [Heap.getMap, List.getD]
+    obtain ⟨h1, _, h3, _, _, _⟩ := g.rest
+    exact ⟨ps, rfl, opMapPairs_length _ _ _ hp, hv, hnew, g.getArr, g.getMap, h1, h3⟩
 
 /-- **C02 (each over a missing or null collection renders nothing).** -/
 theorem C02_each_missing (v : Val) (hv : v = .nil ∨ v = .invalid) (st : St) :
